@@ -5,7 +5,10 @@ META = dict(
     title="An unsat answer is never given for a satisfiable assertion set",
     category="proof",
     technique="Coq-verified model evaluator certifying counterexamples to unsat answers + clause-level soundness theorems (RUP, Farkas, CC) on the solver's trace; untrusted z3/cvc5 only propose models",
-    level_text="PARTIAL. Proved for all inputs (Properties_C01.v): a model accepted by the verified evaluator witnesses satisfiability, so an `unsat` "
+    level_text="PARTIAL. Proved for all traces (Properties_C01.v c01_trace_sound): a trace of the abstract CDCL(T) machine whose input clauses follow from the "
+               "assertions, whose theory clauses are T-valid and whose learnt/derived/final clauses pass reverse unit propagation refutes the assertions "
+               "when it reaches the empty clause under the frame-activation assumptions. Per run the SAT-level hook trace of every unsat answer of the default "
+               "engine is replayed by the extracted `replay` (every trace must be accepted). Also proved: a model accepted by the verified evaluator witnesses satisfiability, so an `unsat` "
                "answer for such a set is wrong (this makes every reported violation machine-checked). Per run: every `unsat` answer of the "
                "working-tree binary on generated scripts (all model-supporting logics, incremental histories, 2-3 option vectors each incl. "
                "lookahead/picky/ghost engines, proof/core/interpolant tracking) is challenged: z3 proposes a model, the extracted evaluator confirms it. "
@@ -22,7 +25,82 @@ META = dict(
 )
 
 
+def trace_events(path):
+    """event string for ocaml/trace_driver.ml from the hooked trace of the first solver instance, with a `q` after every
+    unsat answer reached by solving or by clause insertion; returns (string, number of q)"""
+    import re
+    out, inst, nq = [], None, 0
+    for line in open(path, errors="replace"):
+        m = re.match(r"\((o|d|l|f|a) (\S+) \(([-0-9 ]*)\)\)", line)
+        if m:
+            if inst is None:
+                inst = m.group(2)
+            if m.group(2) != inst:
+                continue
+            k = {"o": "o", "d": "d", "l": "d", "f": "d", "a": "a"}[m.group(1)]
+            out.append("%s:%s" % (k, ",".join(m.group(3).split())))
+            continue
+        m = re.match(r"\(t (\S+) \w+ \(([-0-9 ]*)\)", line)
+        if m:
+            if inst is None:
+                inst = m.group(1)
+            if m.group(1) == inst:
+                out.append("t:%s" % ",".join(m.group(2).split()))
+            continue
+        if line.startswith("(ms ") and "(result unsat)" in line and "(via flag)" not in line:
+            fl = re.search(r"\(frame-lits ([-0-9 ]*)\)", line)
+            lits = [str(-int(x)) for x in (fl.group(1).split() if fl else []) if int(x) != 0]
+            out.append("a:%s" % ",".join(lits))      # every live frame is enabled
+            out.append("q")
+            nq += 1
+    return ";".join(out), nq
+
+
+def trace_certificates(ctx, n):
+    """Positive direction per run: the SAT-level trace of every unsat answer of the default engine is replayed by the
+    extracted `replay` (Properties_C01.v c01_trace_sound): learnt / derived / final clauses must be RUP and the empty
+    clause must follow by unit propagation from the clauses seen plus the frame-activation assumptions."""
+    import os, random
+    import concurrent.futures as cf
+    import vlib, scriptgen
+    exe, log = vlib.build_extracted("trace")
+    if not exe:
+        ctx.tie_broken("extraction-trace", log)
+        return
+
+    def one(i):
+        rng = random.Random(ctx.seed * 2750159 + i)
+        text, meta = scriptgen.gen_script(rng, incremental=rng.random() < 0.4, queries=(), produce_models=False, nassert=rng.choice([4, 6, 8, 10, 12]))
+        tr = os.path.join(vlib.BUILD, "tmp", "c01_%d_%d.trace" % (os.getpid(), i))
+        os.makedirs(os.path.dirname(tr), exist_ok=True)
+        if os.path.exists(tr):
+            os.remove(tr)
+        rc, out, err = vlib.run_opensmt(text, timeout=10, env_extra={"OPENSMT_VERIF_TRACE": tr})
+        ev, nq = trace_events(tr) if os.path.exists(tr) else ("", 0)
+        if os.path.exists(tr):
+            os.remove(tr)
+        return text, meta, rc, ev, nq, out.count("unsat")
+    with cf.ThreadPoolExecutor(max_workers=12) as ex:
+        res = [r for r in ex.map(one, range(n)) if r[2] in (0, 1) and r[4] > 0]
+    if not res:
+        return
+    rc, out = vlib.sh([exe], input="\n".join(r[3] for r in res) + "\n", timeout=900)
+    lines = out.split("\n")
+    if rc != 0 or len(lines) < len(res):
+        ctx.tie_broken("trace-replay-run", out[-300:])
+        return
+    for (text, meta, rc_, ev, nq, nunsat), l in zip(res, lines):
+        toks = l.split()
+        ctx.case(key=("trace", text), nontrivial=len(toks) > 1, kind="trace-certificate:%s:%s" % (meta["logic"], "accepted" if "FAIL" not in toks else "rejected"),
+                 sample=dict(script=text, events=ev[:300], verdicts=l))
+        ctx.count("trace:derived-clauses-and-answers-checked", len(toks))
+        if "FAIL" in toks:
+            ctx.tie_broken("trace-certificate", "the SAT-level trace of an unsat answer is not accepted by the extracted replay (position %d of %d)" % (toks.index("FAIL"), len(toks)),
+                           dict(script=text, events=ev))
+
+
 def run(ctx):
     answercheck.run_corpus(ctx, "C01", judge_sat=False, judge_unsat=True)
-    answercheck.sweep(ctx, "C01", 110 if ctx.quick else 2500, 3, judge_sat=False, judge_unsat=True,
+    trace_certificates(ctx, 100 if ctx.quick else 3000)
+    answercheck.sweep(ctx, "C01", 80 if ctx.quick else 2500, 3, judge_sat=False, judge_unsat=True,
                       gen_kwargs=dict(p_incremental=0.4, p_big=0.15, nassert=None, depth=None), all_configs=not ctx.quick and False)
